@@ -8,6 +8,7 @@ mod c10;
 mod c03;
 mod c04;
 mod c05;
+mod c05b;
 mod c06;
 mod c07;
 mod c11;
